@@ -2,7 +2,7 @@
    [build_checked] is the model of spox.build (coq/Build.v build_public) followed by the model's own validators;
    the per-run correspondence shows that the real build returns exactly [build_checked]'s model (names included). *)
 From Coq Require Import List String NArith Arith Bool.
-From Spox Require Import Base IR Show Build Validate BuildFacts ScopeFacts EmitFacts SsaFacts GlobalFacts.
+From Spox Require Import Base IR Show Build Validate BuildFacts ScopeFacts EmitFacts SsaFacts GlobalFacts InlineDefs.
 Import ListNotations.
 
 (* A model is returned only after the final structural check (per-graph SSA without shadowing, definition before use
@@ -97,3 +97,25 @@ Theorem C02_public_build_value_names_unique_by_construction :
       (global_premises_b (with_main p (Some args) outputs) 0 = true -> NoDup (defs_graph (mmain m))).
 Proof. exact build_public_global. Qed.
 Print Assumptions C02_public_build_value_names_unique_by_construction.
+
+(* Inlined blocks, by construction (no validator): every name defined inside the block emitted for an Inline node is "" (an omitted
+   optional output), a name RESERVED for the block, or the table entry of an output Var of the Inline node itself; reserved names stay
+   reserved and never name a Var - so internals of inlined models cannot collide with any graph input or node output around them.
+   Premise: the inlined model does not define a value under the name of one of its own inputs (every valid ONNX model). *)
+Theorem C02_inline_internals_are_reserved_or_own_outputs :
+  forall p un fbuild rec prefix ms s rq fs sfs n acc' gi gin body go_ vi imp,
+  compile_step p un fbuild rec prefix (ms, s, rq, fs, sfs) (NReal n) = inl acc' ->
+  is_arg p (NReal n) = false -> kind (getn p n) = KInline (OGraph gi gin body go_ vi) imp -> inner_defs_ok gi body ->
+  let '(ms', s', _, _, _) := acc' in
+  exists nm inn outn b, ms' = ms ++ [MInline nm (NReal n) inn outn b] /\
+    forall x, In x (flat_map defs_raw b) ->
+      x = ""%string \/ In x (reserved s') \/ exists k, lookup var_eqb (V (NReal n) k) (vname s') = Some x.
+Proof. exact inline_step_defs. Qed.
+Print Assumptions C02_inline_internals_are_reserved_or_own_outputs.
+
+Theorem C02_reserved_names_persist_and_name_no_var :
+  (forall p un args_of own_of fbuild x fuel s g prefix vi mg s' rq fs,
+     compile p un args_of own_of fbuild fuel s g prefix vi = inl (mg, s', rq, fs) -> In x (reserved s) -> In x (reserved s')) /\
+  (forall s x v, ScopeInv s -> In x (reserved s) -> lookup var_eqb v (vname s) <> Some x).
+Proof. split; [exact compile_reserved_persist|exact reserved_is_no_var_name]. Qed.
+Print Assumptions C02_reserved_names_persist_and_name_no_var.
